@@ -46,7 +46,7 @@ Inductive member := MMethodParam | MCtorPromoted.
 Definition mcase := (member * cty * value * bool)%type.
 Definition check_mcase (c : mcase) : list nat :=
   let '(m, A, v, acc) := c in
-  let g := {| g_params := ["T"]; g_props := [] |} in
+  let g := {| g_params := ["T"]; g_props := []; g_meths := []; g_ctor := None |} in
   let model := match m with
                | MMethodParam => method_param_accepts fixture_sub (Some (DGen "T")) [("T", A)] v
                | MCtorPromoted => ctor_promoted_accepts fixture_sub (Some (DGen "T")) [("T", A)] v
